@@ -69,6 +69,7 @@ type cnCfg struct {
 	MaxPerEntity  int    `json:"max_per_entity"`
 	ExtraNodes    int    `json:"extra_nodes"`  // entity 0 runs this many additional validator nodes
 	TiedStake     bool   `json:"tied_stake"`   // every validator entity starts with the same escrow
+	TinyStake     bool   `json:"tiny_stake"`   // thresholds of 1-2 base units, escrows at / just below / just above them and around one voting-power unit
 	MinTransact   int64  `json:"min_transact"` // staking MinTransactBalance
 	VRF           bool   `json:"vrf"`          // VRF beacon backend (the production one) instead of the insecure test backend
 	VRFThreshold  uint64 `json:"vrf_threshold"`
@@ -121,6 +122,25 @@ type detFactory struct {
 
 func (f detFactory) Generate(role signature.SignerRole, _ io.Reader) (signature.Signer, error) {
 	return f.SignerFactory.Generate(role, detRand{f.rng})
+}
+
+func stakeThresholds(cfg cnCfg) map[staking.ThresholdKind]quantity.Quantity {
+	if cfg.TinyStake {
+		return map[staking.ThresholdKind]quantity.Quantity{
+			staking.KindEntity: q(1), staking.KindNodeValidator: q(2), staking.KindNodeCompute: q(1), staking.KindNodeObserver: q(1),
+			staking.KindNodeKeyManager: q(2), staking.KindRuntimeCompute: q(2), staking.KindRuntimeKeyManager: q(2), staking.KindKeyManagerChurp: q(2),
+		}
+	}
+	return map[staking.ThresholdKind]quantity.Quantity{
+		staking.KindEntity:            q(10),
+		staking.KindNodeValidator:     q(20),
+		staking.KindNodeCompute:       q(30),
+		staking.KindNodeObserver:      q(5),
+		staking.KindNodeKeyManager:    q(50),
+		staking.KindRuntimeCompute:    q(60),
+		staking.KindRuntimeKeyManager: q(70),
+		staking.KindKeyManagerChurp:   q(80),
+	}
 }
 
 func beaconParams(cfg cnCfg) beacon.ConsensusParameters {
@@ -214,16 +234,7 @@ func (n *cnNet) buildGenesis() error {
 	stk := staking.Genesis{
 		Parameters: staking.ConsensusParameters{
 			DebondingInterval: 1,
-			Thresholds: map[staking.ThresholdKind]quantity.Quantity{
-				staking.KindEntity:            q(10),
-				staking.KindNodeValidator:     q(20),
-				staking.KindNodeCompute:       q(30),
-				staking.KindNodeObserver:      q(5),
-				staking.KindNodeKeyManager:    q(50),
-				staking.KindRuntimeCompute:    q(60),
-				staking.KindRuntimeKeyManager: q(70),
-				staking.KindKeyManagerChurp:   q(80),
-			},
+			Thresholds:        stakeThresholds(cfg),
 			Slashing: map[staking.SlashReason]staking.Slash{
 				staking.SlashConsensusEquivocation: {Amount: q(40), FreezeInterval: 1},
 			},
@@ -260,6 +271,9 @@ func (n *cnNet) buildGenesis() error {
 		self := uint64(200 + 60*i)
 		if cfg.TiedStake {
 			self = 320
+		}
+		if cfg.TinyStake {
+			self = []uint64{3, 15, 17, 33, 16}[i%5]
 		}
 		stk.Ledger[v.entAddr] = &staking.Account{
 			General: staking.GeneralAccount{Balance: q(1_000)},
